@@ -56,8 +56,12 @@ def c_max(n, m):
     return c
 
 
-def grid(p, top_mult, threshold):
+def grid(p, top_mult, threshold, dense=False):
     m = 1 << p
+    if dense:
+        # every m/256 keys up to 6.5m: each of the 200 table intervals (about m/40 keys wide) is hit about six times
+        step = max(1, m // 256)
+        return list(range(int(0.5 * threshold) // step * step, int(6.5 * m), step))
     pts = {0, 1, 2, 3, 5, 8, 13, 21, 34}
     x = 40.0
     while x < top_mult * m:
@@ -77,7 +81,9 @@ def run_case(case, ctx, mon):
     h = s.HyperLogLog(p, seed)
     thr = float(h.threshold)
     rng = np.random.default_rng(case["stream"])
-    pts = grid(p, case["top_mult"], thr)
+    pts = grid(p, case["top_mult"], thr, dense=bool(case.get("dense")))
+    if case.get("dense"):
+        mon.count("dense_streams")
     env = K * 1.04 / math.sqrt(m)
     n = 0
     regimes = set()
@@ -137,6 +143,7 @@ def gen_cases(ctx):
     rep = 0
     while True:
         for p in range(7, 17):
+            yield {"p": p, "seed": int(rng.integers(0, 2**63)) * 2 + 1, "stream": int(rng.integers(0, 2**62)), "top_mult": 6.5, "dense": True}
             if q:
                 n_seeds = 8 if p <= 10 else (4 if p <= 12 else 1)
                 top = 40 if p <= 12 else 16
@@ -165,3 +172,4 @@ def floors(mon, ctx):
             mon.floor(f"regime {r} at p={p}", int(f"p{p}:{r}" in mon.classes["regime"]), 1)
     mon.floor("envelope evaluations", mon.counters["envelope_evaluations"], 1000)
     mon.floor("small-n evaluations", mon.counters["small_n_evaluations"], 50)
+    mon.floor("dense streams (one per precision)", mon.counters["dense_streams"], 10)
